@@ -24,7 +24,8 @@ DECIDING_COUNTERS = ["cli_runs", "programs", "failed_runs_checked_for_no_output"
 MIN_DISTINCT = 100
 
 W_CHOICES = [[], ["-Wall"], ["-Wno-all"], ["-Wall", "-Wno-label-fixup"], ["-Wno-implicit-operand"], ["-Wlegacy-deferred"], ["-Wnosuchwarning"],
-             ["-Wno-all", "-Wexcess-hash"], ["-Wdefault"], ["-Wno-default"], ["-Wsuspicious-name", "-Wmeta-typo"]]
+             ["-Wno-all", "-Wexcess-hash"], ["-Wdefault"], ["-Wno-default"], ["-Wsuspicious-name", "-Wmeta-typo"],
+             ["-Wno-undefined-symbol", "-Wno-value-out-of-bounds", "-Wno-wrong-operands"], ["-Wno-invalid-number", "-Wno-odd-address", "-Wno-io-error", "-Wno-unknown-insn"]]
 
 
 def plan(tier, seed):
@@ -38,7 +39,7 @@ def gen_case(rnd, points):
     nf = rnd.choice([0, 0, 1, 1, 1, 2, 3])
     kinds = [rnd.choice(faults.KINDS) for _ in range(nf)]
     wk = [rnd.choice(faults.WARNING_KINDS) for _ in range(rnd.choice([0, 0, 1, 2]))]
-    sel = rnd.choice(["o-bin", "o-raw", "implicit", "make", "make", "make+o", "none", "o-bin+lst", "make+lst", "make-bad-dir"])
+    sel = rnd.choice(["o-bin", "o-raw", "implicit", "make", "make", "make+o", "none", "o-bin+lst", "make+lst", "make-bad-dir", "make-bad-dir+lst"])
     matrix = []
     for _ in range(points):
         matrix.append([rnd.choice(["bare", "graphical"]), rnd.choice(W_CHOICES)])
@@ -124,7 +125,7 @@ def run_case(case, cnt=None, root=None, idset=None):
             if sel == "make+o":
                 argv_sel = ["-o", "both.bin"]
                 expected_outputs.append("both.bin")
-            if sel == "make-bad-dir":
+            if sel.startswith("make-bad-dir"):
                 main.append("make_raw \"nodir/bad.raw\"")
         lst = None
         if sel.endswith("+lst"):
@@ -166,12 +167,16 @@ def run_case(case, cnt=None, root=None, idset=None):
                 continue
             if (nerr > 0) != (r["exit"] != 0):
                 viol(f"{label}: {nerr} error diagnostics {[e[1] for e in r['events'] if e[0] != 'warning'][:4]} but exit status {r['exit']}")
+            if r["exit"] != 0:
+                shown = (r["stdout"] if fmt == "bare" else r["stderr"]).decode("utf-8", "replace")
+                if "Error" not in shown:
+                    viol(f"{label}: the run failed (exit {r['exit']}) without printing any error ({nerr} error diagnostics were emitted: {[e[1] for e in r['events'] if e[0] != 'warning'][:3]})")
             changed = r["diff"]["created"] + r["diff"]["modified"]
             changed = [c for c in changed if not c.endswith("/")]
             if r["exit"] != 0:
                 cnt["failed_runs_checked_for_no_output"] += 1
                 writes = [o for o in r["opens"] if not o[0].startswith("fd")]
-                emit_io = sel == "make-bad-dir" and any(e[1] == "io-error" for e in r["events"])
+                emit_io = sel.startswith("make-bad-dir") and any(e[1] == "io-error" for e in r["events"])
                 if changed or writes:
                     only_make = set(changed) <= {"mk.bin", "out/mk.raw", "mk.wav"} and all(os.path.basename(w[0]) in ("mk.bin", "mk.raw", "mk.wav", "bad.raw") for w in writes)
                     compile_errors = [e for e in r["events"] if e[0] != "warning" and not (e[1] == "io-error" and "bad" in (e[4] or "") or e[1] == "io-error")]
@@ -185,7 +190,7 @@ def run_case(case, cnt=None, root=None, idset=None):
                             now = fh.read()
                     except OSError:
                         now = None
-                    if now != content and not (sel == "make-bad-dir" and p in ("mk.bin", "out/mk.raw", "mk.wav")):
+                    if now != content and not (sel.startswith("make-bad-dir") and p in ("mk.bin", "out/mk.raw", "mk.wav")):
                         viol(f"{label}: failed run destroyed the pre-existing output {p}")
             else:
                 cnt["successful_runs_checked_for_outputs"] += 1
